@@ -434,7 +434,7 @@ func (c *Ctx) c13Counts(b BK, decodeTarget types.Object) {
 					if ev.Kind == pw.EvCall && strings.HasPrefix(ev.Role, "DynParam:") {
 						cb = ev
 					}
-					if ev.Kind == pw.EvAssign && ev.Value != nil && ev.Value.Kind == pw.KArith && ev.Value.Op == token.ADD && ev.Obj != nil && ev.Obj.Name() != "i" {
+					if isIncrement(ev) && !(ev.Obj != nil && ev.Obj.Name() == "i") {
 						incs++
 					}
 				}
@@ -529,7 +529,7 @@ func (c *Ctx) c13Counts(b BK, decodeTarget types.Object) {
 				if b.Sharded && ev.Kind == pw.EvMapInsert && isShardData(ev) || !b.Sharded && isSyncStore(p, ev) {
 					stores++
 				}
-				if ev.Kind == pw.EvAssign && ev.Value != nil && ev.Value.Kind == pw.KArith && ev.Value.Op == token.ADD {
+				if isIncrement(ev) {
 					incs++
 				}
 			}
